@@ -63,7 +63,7 @@ def ImplBody.render (tpl : Template) (name : String) : ImplBody → String
     "let " ++ safeName u.swVar ++ " = " ++ u.disc.render tpl ++ "?;\nOk(match " ++ safeName u.swVar ++ " {\n" ++
       String.join (u.arms.map (·.render tpl)) ++ u.tail.render tpl ++ "})\n"
   | .enum arms =>
-    "Ok(match v.read_i32()? {\n" ++ String.join (arms.map fun (p, m) => p ++ " => Self::" ++ m ++ ",\n") ++
+    "Ok(match v.read_i32()? {\n" ++ String.join (arms.map fun (p, m) => p.display ++ " => Self::" ++ m ++ ",\n") ++
       "d => return Err(Error::UnknownVariant(d as i32)),\n})\n"
   | .typedef d => "Ok(Self(" ++ d.render tpl ++ "))\n"
 
